@@ -33,6 +33,9 @@ pub use error::{HierarchicalError, Result};
 
 mod error;
 
+#[cfg(linfa_verif)]
+pub mod verif_hooks_c06;
+
 /// Criterion when to stop merging
 ///
 /// The criterion defines at which point the merging process should stop. This can be either, when
